@@ -140,6 +140,18 @@ func cohortOpsWith(sigOfD func(D) string, sigOfText func(string) string) []cohor
 		k := k
 		un(fmt.Sprintf("Ldexp(%d)", k), func(d D) D { return decimal128.Ldexp(d, k) })
 	}
+	// Ldexp aimed at the range ends: the integer argument is derived from the operand's value (its decimal
+	// magnitude, the same for every cohort member), so that the result is 10^target times the significand
+	for _, target := range []int{6144, 6145, 6110, -6176, -6177, -6143, -6210} {
+		target := target
+		un(fmt.Sprintf("Ldexp(to 1e%d)", target), func(d D) D {
+			n := num(d)
+			if n.Class != ref.Finite || n.IsZero() {
+				return decimal128.Ldexp(d, target)
+			}
+			return decimal128.Ldexp(d, target-(ref.NumDigits(n.Coef)-1+n.Exp))
+		})
+	}
 	add("Frexp", 1, func(a []D) string { f, e := decimal128.Frexp(a[0]); return fmt.Sprintf("%s %d", sigOfD(f), e) })
 	add("Float64", 1, func(a []D) string { return fmt.Sprintf("%x", math.Float64bits(a[0].Float64())) })
 	add("Float32", 1, func(a []D) string { return fmt.Sprintf("%x", math.Float32bits(a[0].Float32())) })
